@@ -1,3 +1,7 @@
 import BM.Basic
 import BM.Regex
 import BM.Html
+import BM.Url
+import BM.Css
+import BM.Policy
+import BM.Sanitize
